@@ -33,8 +33,6 @@ The inspection data structures provide a single source of truth for:
 
 from __future__ import annotations
 
-import hashlib
-import json
 from dataclasses import dataclass, field
 from typing import Any, Dict, Iterable, List, Mapping, Optional, Sequence, Tuple
 import inspect
@@ -129,6 +127,8 @@ def _extract_nodes_and_run_space(
     if isinstance(config, Mapping):
         run_space = config.get("run_space")
         pipeline = config.get("pipeline")
+        if run_space is None and isinstance(pipeline, Mapping):
+            run_space = pipeline.get("run_space")
         if isinstance(pipeline, Mapping):
             nodes = pipeline.get("nodes", [])
         else:
@@ -144,25 +144,17 @@ def _extract_nodes_and_run_space(
     )
 
 
-def _normalize_run_space(value: Any) -> Any:
-    if isinstance(value, Mapping):
-        return {key: _normalize_run_space(value[key]) for key in sorted(value)}
-    if isinstance(value, list):
-        return [_normalize_run_space(item) for item in value]
-    if isinstance(value, str):
-        return value.replace("\r\n", "\n").replace("\r", "\n")
-    return value
-
-
 def _compute_run_space_spec_id(run_space: Mapping[str, Any]) -> str:
-    normalized = _normalize_run_space(run_space)
-    payload = json.dumps(normalized, separators=(",", ":"), ensure_ascii=False).encode(
-        "utf-8"
-    )
-    digest = hashlib.sha256()
-    digest.update(b"semantiva:rscf1:")
-    digest.update(payload)
-    return digest.hexdigest()
+    # Same canonical form as a run-space launch (``semantiva run``): the parsed
+    # block as a plain dict, RSCF v1 bytes, domain-separated SHA-256.
+    from dataclasses import asdict
+
+    from semantiva.configurations.load_pipeline_from_yaml import _parse_run_space_block
+    from semantiva.trace.runtime.run_space_identity import RunSpaceIdentityService
+
+    service = RunSpaceIdentityService()
+    spec = asdict(_parse_run_space_block(run_space))
+    return service._hash(b"semantiva:rscf1:", service._rscf_v1(spec))
 
 
 def _build_sweep_payload(
